@@ -340,6 +340,11 @@ func New(img []byte, missing bool, opt Options) (*Machine, *PanicInfo) {
 		if err := os.WriteFile(path, img, 0o600); err != nil {
 			panic(err)
 		}
+		if opt.SamePath {
+			// ... and the same modification time (a copy that preserves times)
+			t := time.Unix(1_000_000_000, 0)
+			os.Chtimes(path, t, t)
+		}
 		defer os.Remove(path)
 	}
 	cfg := gameboy.Config{
